@@ -41,7 +41,7 @@ def run(ctx):
             ctx.report(classify(e, f["mon"]), {"driver": "h-programs c15 " + mode, "event": e})
     # 3. wide tier: u128 totals up to 2^128-1, deltas at +-2^127 (Apalache, unbounded integers)
     wp = ctx.path("wide.ndjson")
-    ctx.run_bin("c15", ["wide", "--seed", ctx.seed, "--n", 60 if ctx.quick else 400, "--out", wp])
+    ctx.run_bin("c15", ["wide", "--seed", ctx.seed, "--n", 40 if ctx.quick else 400, "--out", wp])
     wev = vlib.read_ndjson(wp)
     res = vlib.apalache_events(ctx, "Wide_Pool", ["Pool", "PoolProps"], wev, SCHEMA, "CInit128",
                                ["bad", "drift"], chunk=100 if ctx.quick else 200)
@@ -70,7 +70,7 @@ def run(ctx):
             c["target"] = "sdk"
             ctx.report(c, {"driver": "h-sdk c15s " + mode, "event": e})
     swp = ctx.path("sdk-wide.ndjson")
-    ctx.run_bin("c15s", ["wide", "--seed", ctx.seed, "--n", 60 if ctx.quick else 500, "--out", swp])
+    ctx.run_bin("c15s", ["wide", "--seed", ctx.seed, "--n", 30 if ctx.quick else 500, "--out", swp])
     swev = vlib.read_ndjson(swp)
     sres = vlib.apalache_events(ctx, "Wide_Pool", ["Pool", "PoolProps"], swev, SCHEMA, "CInit128",
                                 ["bad", "drift"], chunk=100 if ctx.quick else 250)
